@@ -88,7 +88,7 @@ func (runInfo *runInfoStruct) invokeComparisonOperator(operator *ast.ComparisonO
 	if runInfo.rv.Kind() == reflect.Interface && !runInfo.rv.IsNil() {
 		runInfo.rv = runInfo.rv.Elem()
 	}
-	lhsV := runInfo.rv
+	lhsV := detach(runInfo.rv)
 
 	runInfo.expr = operator.RHS
 	runInfo.invokeExpr()
@@ -153,7 +153,7 @@ func (runInfo *runInfoStruct) invokeAddOperator(operator *ast.AddOperator) {
 	if runInfo.rv.Kind() == reflect.Interface && !runInfo.rv.IsNil() {
 		runInfo.rv = runInfo.rv.Elem()
 	}
-	lhsV := runInfo.rv
+	lhsV := detach(runInfo.rv)
 
 	runInfo.expr = operator.RHS
 	runInfo.invokeExpr()
@@ -233,7 +233,7 @@ func (runInfo *runInfoStruct) invokeMultiplyOperator(operator *ast.MultiplyOpera
 	if runInfo.rv.Kind() == reflect.Interface && !runInfo.rv.IsNil() {
 		runInfo.rv = runInfo.rv.Elem()
 	}
-	lhsV := runInfo.rv
+	lhsV := detach(runInfo.rv)
 
 	runInfo.expr = operator.RHS
 	runInfo.invokeExpr()
